@@ -9,6 +9,7 @@ import (
 	"runtime/debug"
 	"sort"
 	"strconv"
+	"strings"
 	"sync/atomic"
 	"testing"
 	"time"
@@ -44,27 +45,28 @@ type Engine interface {
 
 // Summary is what a worker writes when it finishes its range.
 type Summary struct {
-	Property     string           `json:"property"`
-	Engine       string           `json:"engine"`
-	Tier         string           `json:"tier"`
-	Seed         uint64           `json:"seed"`
-	From         int              `json:"from"`
-	To           int              `json:"to"`
-	Runs         int              `json:"runs"`
-	Evals        int64            `json:"evals"`
-	SimNs        int64            `json:"sim_ns"`
-	WallS        float64          `json:"wall_s"`
-	Digests      []uint64         `json:"digests"`
-	NonTrivial   []uint64         `json:"nontrivial"`
-	States       []uint64         `json:"states"`
-	Interleaving []uint64         `json:"interleavings"`
-	Counters     map[string]int64 `json:"counters"`
-	Known        map[string]int64 `json:"known"`
-	Samples      []Sample         `json:"samples"`
-	Violations   []ViolationRef   `json:"violations"`
-	BudgetCut    bool             `json:"budget_cut"`
-	Describe     Describe         `json:"describe"`
-	Plan         Plan             `json:"plan"`
+	Property     string            `json:"property"`
+	Engine       string            `json:"engine"`
+	Tier         string            `json:"tier"`
+	Seed         uint64            `json:"seed"`
+	From         int               `json:"from"`
+	To           int               `json:"to"`
+	Runs         int               `json:"runs"`
+	Evals        int64             `json:"evals"`
+	SimNs        int64             `json:"sim_ns"`
+	WallS        float64           `json:"wall_s"`
+	Digests      []uint64          `json:"digests"`
+	NonTrivial   []uint64          `json:"nontrivial"`
+	States       []uint64          `json:"states"`
+	Interleaving []uint64          `json:"interleavings"`
+	Counters     map[string]int64  `json:"counters"`
+	Known        map[string]int64  `json:"known"`
+	Samples      []Sample          `json:"samples"`
+	Violations   []ViolationRef    `json:"violations"`
+	BudgetCut    bool              `json:"budget_cut"`
+	RunHashes    map[string]uint64 `json:"run_hashes,omitempty"`
+	Describe     Describe          `json:"describe"`
+	Plan         Plan              `json:"plan"`
 }
 
 // Sample is one explicit case for the evidence file.
@@ -220,9 +222,16 @@ func RunWorker(t *testing.T, e Engine) {
 			_ = os.WriteFile(cur, MustJSON(&Replay{Scenario: *sc}), 0o644)
 		}
 		wantTrace := len(sum.Samples) < nSamples && run >= plan.Exhaustive
+		traceDir := os.Getenv("VERIF_TRACEDIR")
+		if traceDir != "" {
+			wantTrace = true
+		}
 		res := e.Execute(t, sc, wantTrace)
 		Progress()
 		n++
+		if traceDir != "" {
+			_ = os.WriteFile(fmt.Sprintf("%s/run-%d.txt", traceDir, run), []byte(strings.Join(res.Trace, "\n")+"\n"), 0o644)
+		}
 		if plan.Pin && n%25 == 0 {
 			runtime.GC()
 		}
@@ -233,6 +242,16 @@ func RunWorker(t *testing.T, e Engine) {
 			sum.Evals++
 		}
 		sum.SimNs += res.SimNs
+		if os.Getenv("VERIF_RUNHASH") != "" {
+			if sum.RunHashes == nil {
+				sum.RunHashes = map[string]uint64{}
+			}
+			h := Derive(res.Interleaving, res.SimNs)
+			if res.Violation != nil {
+				h = Derive(h, res.Violation.Check)
+			}
+			sum.RunHashes[strconv.Itoa(run)] = h
+		}
 		d := sc.Digest()
 		if res.Interleaving != 0 {
 			d = Derive(d, res.Interleaving)
